@@ -385,8 +385,15 @@ fn exec_op<'s>(
         }
         Op::ForceWrite { node, part, key, val: tag } => {
             let mk = (*node, *part, db_sort(key));
-            if m.new_nodes.contains(node) || m.written.contains(&mk) || m.reverted {
+            if m.new_nodes.contains(node) || m.reverted {
                 return Ok(OpResult::Skipped);
+            }
+            // The kernel only force-writes substates that were unmodified so far; the Track API
+            // itself also accepts a force-write of an already written (or already force-written)
+            // substate, whose latest force-written value must then be the one a revert keeps.
+            let already_written = m.written.contains(&mk);
+            if already_written {
+                stats.bump("op.force_write_of_already_written_substate");
             }
             let nid = node_id(*node);
             let skey = key.to_substate_key();
@@ -399,6 +406,7 @@ fn exec_op<'s>(
             // ... kernel's UNMODIFIED_BASE precondition ...
             match track.get_tracked_substate_info(&nid, PartitionNumber(*part), &skey) {
                 TrackedSubstateInfo::Unmodified => {}
+                _ if already_written => {}
                 _ => {
                     return mismatch("info_not_unmodified", format!("substate ({},{},{:?}) was never written in this transaction but is not reported Unmodified", node, part, key));
                 }
